@@ -58,6 +58,8 @@ struct Case {
   int prefill = 3;
   int bits = 61;                          // |values| < 2^bits (<= 61 so add/sub stay in int64)
   uint64_t seed = 0;
+  int amode = -1;                         // -1: OVER/UNDER chosen from the seed; 2: MID (malloc-exact under ASan) at byte offset `misalign`
+  uint64_t misalign = 0;
 };
 
 struct Outcome {
@@ -145,9 +147,10 @@ inline void run(Ctx& ctx, Case c) {
   if (c.alias & 2) r_limbs = std::max(r_limbs, c.bs);
   Rng rng(c.seed);
   Arena ar;
-  Buf R = ar.alloc(ext(r_limbs, rsl), (c.seed & 1) ? OVER : UNDER, 0, c.prefill, c.seed);
-  Buf A = (c.alias & 1) ? R : ar.alloc(ext(c.as, asl), (c.seed & 2) ? OVER : UNDER, 0, 3, c.seed + 11);
-  Buf B = (c.alias & 2) ? R : ar.alloc(ext(c.bs, bsl), (c.seed & 4) ? OVER : UNDER, 0, 3, c.seed + 12);
+  const bool mid = c.amode == 2;
+  Buf R = ar.alloc(ext(r_limbs, rsl), mid ? MID : (c.seed & 1) ? OVER : UNDER, c.misalign, c.prefill, c.seed);
+  Buf A = (c.alias & 1) ? R : ar.alloc(ext(c.as, asl), mid ? MID : (c.seed & 2) ? OVER : UNDER, (c.misalign * 3 + 8) % 64, 3, c.seed + 11);
+  Buf B = (c.alias & 2) ? R : ar.alloc(ext(c.bs, bsl), mid ? MID : (c.seed & 4) ? OVER : UNDER, (c.misalign * 5 + 16) % 64, 3, c.seed + 12);
   int64_t *res = R.as<int64_t>(), *a = A.as<int64_t>(), *b = B.as<int64_t>();
   const bool same_ab = (c.alias & 3) == 3;  // a and b are the very same buffer
   for (uint64_t i = 0; i < (same_ab ? std::max(c.as, c.bs) : c.as); ++i)
